@@ -57,7 +57,7 @@ Definition at_this (f : nat) (o : opts) (chain : list (list etok)) (x : str) (pr
       | _, _ => mkso [] [] w [] false
       end
   | None =>
-      let head := [mke GFree (TAt x)] ++ at_prelude_spec o prelude in
+      let head := [mke GFree (TAt x)] ++ at_prelude_spec o true prelude in
       match term with
       | Some (Block _ _ body _ _) =>
           if ideal_contain x then
@@ -114,8 +114,8 @@ Proof.
         try (destruct tt); destruct a1; destruct a2; split; reflexivity.
     + destruct term as [[tt tp|bo bp bb be bc]|]; try (split; reflexivity).
       destruct (ideal_contain s); [|split; reflexivity].
-      destruct (IH o (c1 ++ [([mke GFree (TAt s)] ++ at_prelude_spec o prelude) ++ [mke GFree TCurly]])
-                   (c2 ++ [([mke GFree (TAt s)] ++ at_prelude_spec o prelude) ++ [mke GFree TCurly]]) bb false false) as [C D].
+      destruct (IH o (c1 ++ [([mke GFree (TAt s)] ++ at_prelude_spec o true prelude) ++ [mke GFree TCurly]])
+                   (c2 ++ [([mke GFree (TAt s)] ++ at_prelude_spec o true prelude) ++ [mke GFree TCurly]]) bb false false) as [C D].
       cbn [so_normal so_complete]. rewrite C, D. split; reflexivity.
   - unfold q_branch. destruct (take_prelude false (x :: r)) as [[prelude term] rest].
     destruct (IH o c1 c2 rest false false) as [A B].
@@ -186,7 +186,7 @@ Definition term_spec (o : opts) (contain : bool) (inner : list node -> list etok
   | Leaf t _ => [mke GFree t]
   end.
 
-Lemma at_prelude_spec_cons : forall o x r, at_prelude_spec o (x :: r) = at_prelude_spec o [x] ++ at_prelude_spec o r.
+Lemma at_prelude_spec_cons : forall o lay x r, at_prelude_spec o lay (x :: r) = at_prelude_spec o lay [x] ++ at_prelude_spec o lay r.
 Proof.
   intros. cbn [at_prelude_spec]. destruct (is_ws_or_comment (node_tok x)); [reflexivity|].
   rewrite app_nil_r. reflexivity.
@@ -204,7 +204,7 @@ Lemma at_prelude_vs_spec : forall l st prelude tm rest,
   take_prelude true l = (prelude, Some tm, rest) ->
   (forall t p body e c, tm = Block t p body e c -> contain = true -> good body) ->
   fst (at_prelude o rec contain mark l st) = rest /\
-  IExt (eidc (at_prelude_spec o prelude ++ term_spec o contain inner tm)) st
+  IExt (eidc (at_prelude_spec o true prelude ++ term_spec o contain inner tm)) st
        (snd (at_prelude o rec contain mark l st)).
 Proof.
   induction l as [|x r IH]; intros st prelude tm rest Hs Hu E Hg; [discriminate E|].
@@ -214,15 +214,15 @@ Proof.
   (* the token is passed on to the rest of the prelude *)
   assert (Go : forall st1 X,
              (prelude, Some tm, rest) = (x :: p', t', rest') ->
-             IExt X st st1 -> eidc (at_prelude_spec o [x]) = X ->
+             IExt X st st1 -> eidc (at_prelude_spec o true [x]) = X ->
              fst (at_prelude o rec contain mark r st1) = rest /\
-             IExt (eidc (at_prelude_spec o prelude ++ term_spec o contain inner tm)) st
+             IExt (eidc (at_prelude_spec o true prelude ++ term_spec o contain inner tm)) st
                   (snd (at_prelude o rec contain mark r st1))).
   { intros st1 X E' HX EX. inversion E'; subst.
     assert (Hu1 : w_using_low st1 = false) by (rewrite (proj1 HX); exact Hu).
     destruct (IH st1 p' tm rest' Hsr Hu1 eq_refl Hg) as [A B]. split; [exact A|].
     eapply IExt_eq; [eapply IExt_trans; [exact HX | exact B]|].
-    rewrite (at_prelude_spec_cons o x p'), !eidc_app, app_assoc. reflexivity. }
+    rewrite (at_prelude_spec_cons o true x p'), !eidc_app, app_assoc. reflexivity. }
   destruct (is_ws_or_comment (node_tok x)) eqn:Ew.
   { (* whitespace and comments: skipped by both *)
     destruct x as [t p|open p body e c].
@@ -242,15 +242,19 @@ Proof.
     assert (Blk : forall T, T = open -> is_curly T = false ->
               (prelude, Some tm, rest) = (Block T p body e c :: p', t', rest') ->
               fst (at_prelude o rec contain mark r
-                     (tok_at (cn_body o body true false false (tok_at st T p None)) (close_of T) p None)) = rest /\
-              IExt (eidc (at_prelude_spec o prelude ++ term_spec o contain inner tm)) st
+                     (tok_at (if is_layer_fn T then rpx_body o false body None (tok_at st T p None)
+                              else cn_body o body true false false (tok_at st T p None)) (close_of T) p None)) = rest /\
+              IExt (eidc (at_prelude_spec o true prelude ++ term_spec o contain inner tm)) st
                    (snd (at_prelude o rec contain mark r
-                     (tok_at (cn_body o body true false false (tok_at st T p None)) (close_of T) p None)))).
+                     (tok_at (if is_layer_fn T then rpx_body o false body None (tok_at st T p None)
+                              else cn_body o body true false false (tok_at st T p None)) (close_of T) p None)))).
     { intros T ET HT E'. subst T.
       eapply Go; [exact E' | | cbn [at_prelude_spec]; rewrite Ew, app_nil_r; reflexivity].
-      rewrite !eidc_app.
+      rewrite !eidc_app. cbn [andb].
       eapply IExt_trans; [apply IExt_tok_at|]. eapply IExt_trans; [|apply IExt_tok_at].
-      unfold sel_spec. apply IExt_cn_body; [exact Hsb | reflexivity]. }
+      destruct (is_layer_fn open).
+      - unfold val_spec. apply IExt_rpx_body. exact Hsb.
+      - unfold sel_spec. apply IExt_cn_body; [exact Hsb | reflexivity]. }
     destruct open; try discriminate Ho;
       try (apply Blk; [reflexivity | reflexivity | symmetry; exact E]).
     (* the `{}` block ends the rule *)
@@ -327,16 +331,16 @@ Let after_tail : list node := match tail with Leaf TSemi _ :: r => r | _ => [] e
 Lemma import_media_vs_spec : forall m wpos st,
   shaped m = true -> no_term m = true ->
   fst (import_media o (m ++ tail) wpos st) = Some after_tail /\
-  IExt (eidc (at_prelude_spec o m)) st (snd (import_media o (m ++ tail) wpos st)).
+  IExt (eidc (at_prelude_spec o false m)) st (snd (import_media o (m ++ tail) wpos st)).
 Proof.
   induction m as [|x r IH]; intros wpos st Hs Hn.
   { cbn [app at_prelude_spec]. unfold after_tail.
     destruct tail_form as [-> | [ps [r ->]]]; cbn [import_media node_tok is_ws_or_comment fst snd]; split; try reflexivity; apply IExt_refl. }
   destruct (shaped_cons _ _ Hs) as [_ Hsr]. pose proof (no_term_cons _ _ Hn) as Hnr.
-  cbn [app import_media]. rewrite (at_prelude_spec_cons o x r), eidc_app.
-  assert (Go : forall st1, IExt (eidc (at_prelude_spec o [x])) st st1 ->
+  cbn [app import_media]. rewrite (at_prelude_spec_cons o false x r), eidc_app.
+  assert (Go : forall st1, IExt (eidc (at_prelude_spec o false [x])) st st1 ->
              fst (import_media o (r ++ tail) wpos st1) = Some after_tail /\
-             IExt (eidc (at_prelude_spec o [x]) ++ eidc (at_prelude_spec o r)) st (snd (import_media o (r ++ tail) wpos st1))).
+             IExt (eidc (at_prelude_spec o false [x]) ++ eidc (at_prelude_spec o false r)) st (snd (import_media o (r ++ tail) wpos st1))).
   { intros st1 H1. destruct (IH wpos st1 Hsr Hnr) as [A B]. split; [exact A | eapply IExt_trans; [exact H1 | exact B]]. }
   destruct (is_ws_or_comment (node_tok x)) eqn:Ew.
   { apply Go. cbn [at_prelude_spec]. rewrite Ew. apply IExt_refl. }
@@ -564,16 +568,16 @@ Proof.
                 (tok_at st1 (TAt s_media) spos None)) as [mr st3].
     cbn [fst snd] in Em, Hm. subst mr.
     eexists. split; [reflexivity|].
-    assert (Et' : toks = conds ++ (match at_prelude_spec o (y :: ys) with
+    assert (Et' : toks = conds ++ (match at_prelude_spec o false (y :: ys) with
                                    | [] => []
-                                   | _ => [mke GFree (TAt s_media)] ++ at_prelude_spec o (y :: ys) ++ [mke GFree TCurly]
+                                   | _ => [mke GFree (TAt s_media)] ++ at_prelude_spec o false (y :: ys) ++ [mke GFree TCurly]
                                    end) ++ [mke GFree cm] ++
-                          repeat (mke GFree TCloseCurly) (match at_prelude_spec o (y :: ys) with [] => k | _ => S k end)).
+                          repeat (mke GFree TCloseCurly) (match at_prelude_spec o false (y :: ys) with [] => k | _ => S k end)).
     { destruct y as [ty py|oy py by_ ey cy]; [destruct ty; try contradiction | destruct oy; try contradiction];
         cbn [skip_ws node_tok is_ws_or_comment] in Es;
-        destruct (at_prelude_spec o _) as [|m0 ms]; inversion Es; reflexivity. }
-    assert (Ee : eidc toks = eidc conds ++ eidc (at_prelude_spec o (y :: ys)) ++ idc [cm]).
-    { rewrite Et'. destruct (at_prelude_spec o (y :: ys)) as [|m0 ms].
+        destruct (at_prelude_spec o false _) as [|m0 ms]; inversion Es; reflexivity. }
+    assert (Ee : eidc toks = eidc conds ++ eidc (at_prelude_spec o false (y :: ys)) ++ idc [cm]).
+    { rewrite Et'. destruct (at_prelude_spec o false (y :: ys)) as [|m0 ms].
       - rewrite !eidc_app, eidc_repeat_close. change (eidc []) with (@nil tok). change (eidc [mke GFree cm]) with (idc [cm]).
         cbn [app]. rewrite !app_nil_r. reflexivity.
       - rewrite !eidc_app, eidc_repeat_close.
